@@ -762,6 +762,98 @@ def pacProxyKindAfterMerge (t : List HostPortUser) (result target : Bytes) : Pac
       if schemeOK u'.scheme then .via u'
       else .error (ascii "PAC: unsupported proxy " ++ urlString u' ++ ascii " for " ++ target)
 
+/-! ### loading an inline value: the error texts of `ReadFileOrBase64`
+
+  readurl.go `ReadFileOrBase64` / `readData`: a value that begins with the five bytes `data:` is an
+  inline value - the prefix is SLICED off (`name[5:]`, no URL parsing), a leading `//` is trimmed,
+  what precedes the first comma must be `base64`, the rest goes to `base64.StdEncoding.DecodeString`;
+  any other value is a file name (`os.ReadFile`, outside the model).  The decoder is a parameter
+  (`Decoder`: the data, or the offset of `base64.CorruptInputError`); the theorems hold for every
+  decoder.  What matters for C19 is how the ERROR is built: from a fixed message or from the offset,
+  never from the value - whatever its white-space layout (line breaks from `base64(1)`, TABs, blanks). -/
+
+def cComma : UInt8 := 44
+/-- `base64` -/
+def fmtBase64 : Bytes := [98, 97, 115, 101, 54, 52]
+/-- `strconv.Itoa` of an offset -/
+def natDec (n : Nat) : Bytes := (Nat.toDigits 10 n).map fun c => UInt8.ofNat c.toNat
+
+/-- encoding/base64 `StdEncoding.DecodeString`: the decoded bytes, or the input offset of a
+    `CorruptInputError` -/
+abbrev Decoder := Bytes → Except Nat Bytes
+
+/-- `illegal base64 data at input byte ` -/
+def corruptPrefix : Bytes :=
+  [105, 108, 108, 101, 103, 97, 108, 32, 98, 97, 115, 101, 54, 52, 32, 100, 97, 116, 97, 32, 97, 116, 32,
+   105, 110, 112, 117, 116, 32, 98, 121, 116, 101, 32]
+/-- `base64.CorruptInputError.Error` -/
+def corruptInputText (n : Nat) : Bytes := corruptPrefix ++ natDec n
+/-- the fixed message of `readData` for a format other than `base64` before the comma -/
+def invalidDataURIText : Bytes :=
+  ascii "invalid data URI, the only supported format is: data:base64,<encoded data>"
+
+/-- what `ReadFileOrBase64` makes of a value -/
+inductive Loaded where
+  | data (b : Bytes)
+  | error (text : Bytes)
+  | file (name : Bytes)
+  deriving DecidableEq, Repr
+
+def Loaded.data? : Loaded → Option Bytes
+  | .data b => some b
+  | _ => none
+
+def decodeStep (dec : Decoder) (v : Bytes) : Loaded :=
+  match dec v with
+  | .ok b => .data b
+  | .error n => .error (corruptInputText n)
+
+/-- `strings.TrimPrefix(v, "//")` -/
+def trimSlashes (v : Bytes) : Bytes := if [47, 47].isPrefixOf v then v.drop 2 else v
+
+/-- readurl.go `readData` on the opaque part of the value -/
+def readData (dec : Decoder) (opq : Bytes) : Loaded :=
+  let v := trimSlashes opq
+  match cutByte cComma v with
+  | some (fmt, rest) => if fmt = fmtBase64 then decodeStep dec rest else .error invalidDataURIText
+  | none => decodeStep dec v
+
+/-- readurl.go `ReadFileOrBase64` -/
+def readFileOrBase64 (dec : Decoder) (name : Bytes) : Loaded :=
+  if dataPrefix.isPrefixOf name then readData dec (name.drop 5) else .file name
+
+/-- the two ways an inline value is written: `data:base64,<q>` and `data:<q>` -/
+def inlineRaw (b64 : Bool) (q : Bytes) : Bytes :=
+  dataPrefix ++ ((if b64 then fmtBase64 ++ [cComma] else []) ++ q)
+
+/-- the text without its line breaks (what the decoder looks at: it skips CR and LF) -/
+def stripBreaks (v : Bytes) : Bytes := v.filter fun c => c != 10 && c != 13
+
+/-- a decoder that skips CR and LF, as `encoding/base64` does -/
+def Decoder.ignoresBreaks (dec : Decoder) : Prop :=
+  ∀ v, (dec v).toOption = (dec (stripBreaks v)).toOption
+
+/-- control characters that `net/url` refuses (`stringContainsCTLByte`) -/
+def isCtl (c : UInt8) : Bool := c < 32 || c == 127
+
+/-- `%q` on ASCII with the escapes of line breaks and TAB (other control characters: `\xNN`, not needed) -/
+def quoteGo (s : Bytes) : Bytes :=
+  34 :: (s.flatMap fun c =>
+    if c == 34 || c == 92 then [92, c]
+    else if c == 10 then [92, 110] else if c == 13 then [92, 114] else if c == 9 then [92, 116] else [c]) ++ [34]
+
+/-- `url.Error.Error` of `url.Parse` for a string with a control character: it QUOTES its input -/
+def urlParseErrorText (name : Bytes) : Bytes :=
+  ascii "parse " ++ quoteGo name ++ ascii ": net/url: invalid control character in URL"
+
+/-- NOT the code — the mistake slicing off the prefix excludes: the inline value is run through
+    `url.Parse` first ("to share the --pac parser"); a value with a line break or a TAB in it is
+    refused with an error that carries the whole value -/
+def readFileOrBase64Parsed (dec : Decoder) (name : Bytes) : Loaded :=
+  if dataPrefix.isPrefixOf name then
+    if name.any isCtl then .error (urlParseErrorText name) else readData dec (name.drop 5)
+  else .file name
+
 /-- decidable infix test used by the driver (`bytes.Contains`) -/
 def isInfix (s : Bytes) : Bytes → Bool
   | [] => s.isEmpty
